@@ -274,16 +274,17 @@ func TestC10(t *testing.T) {
 		runtime.GOMAXPROCS(origProcs)
 		ev.Class("height-parallelism-pairs", np)
 	}
+	banners()
 	ev.RapidChecks(ev.Pick(5000, 200000))
 	ev.RapidSeed(10)
 	rapid.Check(t, func(rt *rapid.T) {
 		var c Case
 		c.InPlace = rapid.IntRange(0, 5).Draw(rt, "inplace") == 0
 		if c.InPlace {
-			c.Src = img.Gen(rt, "src", img.GenOpts{Types: dstTypes, AllowWrap: true, TallRows: 40, Orbit: true})
+			c.Src = img.Gen(rt, "src", img.GenOpts{Types: dstTypes, AllowWrap: true, TallRows: 40, Orbit: true, Wide: 6000})
 			c.Dst = c.Src
 		} else {
-			c.Src = img.Gen(rt, "src", img.GenOpts{AllowWrap: true, TallRows: 40, Orbit: true})
+			c.Src = img.Gen(rt, "src", img.GenOpts{AllowWrap: true, TallRows: 40, Orbit: true, Wide: 6000})
 			c.Dst = genDst(rt, c.Src)
 		}
 		rows := c.Src.Rect[3] - c.Src.Rect[1]
@@ -322,3 +323,45 @@ func parChoices(rows int) []int {
 }
 
 var origProcs = runtime.GOMAXPROCS(0)
+
+// banners: few rows, many columns (see C15): a transform may move pixels in fixed-size runs or split wide rows
+// between workers.  Every source type x destination type, widths at and around powers of two up to 16385 and one
+// seeded width, 1..3 rows, parallelism around the row count, non-zero origins, sub-image destinations, in-place.
+func banners() {
+	x := ev.Seed()*0x9E3779B97F4A7C15 + 78
+	next := func(n int) int {
+		x ^= x << 13
+		x ^= x >> 7
+		x ^= x << 17
+		return int(x>>33) % n
+	}
+	widths := []int{129, 260, 513, 1025, 2049, 4097, 8193, 16385, 71 + next(20000)}
+	pars := []int{2, 3, 4, 5, 8, 16, 33, 1}
+	xs := []int{40, 2, 0, 63, 300}
+	var n int64
+	stop := false
+	for _, st := range img.Types {
+		for _, dtyp := range dstTypes {
+			for _, w := range widths {
+				for k := 0; k < ev.Pick(1, 12) && !stop; k++ {
+					h, par, x0 := 1+next(3), pars[next(len(pars))], xs[next(len(xs))]
+					s := img.Spec{Type: st, Ratio: next(6), Rect: [4]int{x0, 1, x0 + w, 1 + h}, Parent: [4]int{x0, 1, x0 + w, 1 + h}, Fill: "prng", Seed: ev.Seed() + uint64(n), PalN: 255}
+					dx := next(90) - 20
+					d := img.Spec{Type: dtyp, Rect: [4]int{dx, 2, dx + w + next(2), 2 + h}, Parent: [4]int{dx - next(3), 2, dx + w + 4, 3 + h}, Fill: "ramp", Seed: 9, Wrap: next(7) == 0}
+					c := Case{Src: s, Dst: d, Par: par, Transform: Transforms[next(len(Transforms))]}
+					if next(5) == 0 && (st == "RGBA64" || st == "NRGBA" || st == "RGBA" || st == "NRGBA64") {
+						c.InPlace, c.Dst = true, s
+					}
+					n++
+					if kd, wh, _ := check(c); kd != "" {
+						ev.Violation("transform", kd, wh, c)
+						stop = true
+					}
+				}
+			}
+		}
+	}
+	ev.Eval(n)
+	ev.NTAdd(n)
+	ev.Class("banners", n)
+}
